@@ -147,7 +147,7 @@ func drawSchedule(t *rapid.T, label string, in []byte, cuts map[string][]int) ru
 
 func genC09(t *rapid.T) c09Case {
 	c := c09Case{}
-	c.Shape = gen.DrawShape(t, gen.ShapeOpts{Encodings: []string{"", "", "utf-8", "iso-8859-1", "windows-1252"}})
+	c.Shape = gen.DrawShape(t, gen.ShapeOpts{AllowReplaceQuotes: true, Encodings: []string{"", "", "utf-8", "iso-8859-1", "windows-1252"}})
 	c.Shape.BOM = rapid.IntRange(0, 3).Draw(t, "bom") == 0
 	opts := gen.ValueOpts{}
 	if rapid.IntRange(0, 9).Draw(t, "long") == 0 {
